@@ -165,6 +165,12 @@ def rule_b(ctx):
     rep.add('C05.b', 'RSocketBase.send_priority_frame / drained items re-queued in order', spf, ok,
             'items are collected with append() and re-queued by iterating the same list forwards' if ok else
             'the drained items are not re-queued in the order they were taken')
+    callers = {c for c, _ in callgraph(ctx).callers(spf)}
+    okc = bool(callers) and all(c.name == 'connect' for c in callers)
+    rep.add('C05.b', 'RSocketBase.send_priority_frame / used by connect() only', spf, okc,
+            'the head insertion is reserved for the SETUP frame queued by connect()' if okc else
+            'the head insertion is also used by %s: frames queued through it overtake everything already queued' %
+            sorted(c.short for c in callers if c.name != 'connect'))
     # every enqueue site of the send queue outside the picker/priority path is a plain tail insertion
     n_sites = 0
     bad = []
